@@ -23,9 +23,10 @@ LevelOf(f, r, j) == RDiv(RMul(<<r.k, 1>>, Norm(j, 12)), PrefixValue(f))
 \* the exponent of the base that Level.quantify() must apply to the reference for a level L
 ExponentOf(f, r, L) == RDiv(RMul(L, PrefixValue(f)), <<r.k, 1>>)
 
-Ev(op, f, r, j, L) == [op |-> op, f |-> f, r |-> r, j |-> j, L |-> L]
-Init == ev = Ev("init", 0, 0, 0, <<0, 1>>)
-Case(f, r, j) == ev' = Ev("level", f, r, j, LevelOf(Families[f], Refs[r], j))
+\* mk: the magnitude type the quantity / the level is written in; the definition does not depend on it
+Ev(op, f, r, j, L, mk) == [op |-> op, f |-> f, r |-> r, j |-> j, L |-> L, mk |-> mk]
+Init == ev = Ev("init", 0, 0, 0, <<0, 1>>, "")
+Case(f, r, j, mk) == ev' = Ev("level", f, r, j, LevelOf(Families[f], Refs[r], j), mk)
 
 \* theorems of the statement on the model
 Monotone == \A f \in 1..Len(Families), r \in 1..Len(Refs), j \in J : (j + 1 \in J) =>
